@@ -1,6 +1,399 @@
-(* C09 — the relay auction selects the best eligible bid and only eligible bids. *)
-From Verif Require Import Lib.Base Model.C09_Auction Proofs.C09.
+(* C09 — the relay auction selects the best eligible bid and only eligible bids.
+   Property theorems only; lemmas in Proofs/C09.v (collector fold invariant) and Proofs/C09_Spec.v,
+   the model in Model/C09_Auction.v (what the code does) and Model/C09_Spec.v (what the statement
+   talks about, written without the collector).
+
+   Reading guide.
+   * [rs] is the proposer's relay list; a relay has a kind (full / cannot unblind / no bid
+     provider / address that does not resolve), a minimum value, configured and advertised keys, a
+     grace period and a script: its k-th call is answered after a latency with an error, nothing,
+     an empty or malformed bid, silence, or a bid (value, builder, zero fee recipient?, timestamp -
+     slot start, signing key, header).  [cfgs] are the per-builder configurations.
+   * [s] is [Best T] (hard timeout T; the soft timeout has no effect on the result) or
+     [Deadline D gap] (relays re-queried every [gap] until the instant D).
+   * [answered s r] = the calls of relay r that were answered and when (no decision of vouch in it);
+     [acceptable s rs i b] = relay i of [rs] is asked by the strategy, answered bid [b] before the
+     cut-off, and [b] is eligible there ([eligible], spelled out by C09_eligible_spelled_out).
+   * [ord] is ANY arrangement of the events the relay goroutines produce ([arrival_order]): the
+     theorems hold for every interleaving of the answers, in particular for the time-sorted order
+     the model uses and for every order of simultaneous answers the check tries
+     (C09_time_order_is_arrival_order, C09_linearizations_are_arrival_orders).
+   * [result_of cfgs s ord] is the strategy's Results; [served m rs st] what blockrelay.BuilderBid
+     then answers to the beacon node.
+
+   Scores: big.Int.Div is Euclidean; for the divisor 100 that is rounding towards minus infinity
+   (C09_score_floor), not Go's integer truncation: (-50)/100 = -1.
+
+   Known finding (deadline strategy): a relay's re-fetched bid is forwarded only when its VALUE
+   exceeds the relay's previously forwarded bid, so an on-time eligible bid with a lower value but a
+   higher score is never considered.  The main theorem for that strategy is therefore the _partial
+   one (hypothesis [no_suppressed_better] = exactly the negation of that input class, on the calls
+   answered before the deadline), C09_deadline_refuted* exhibit the witness, and
+   C09_deadline_winner_is_max_value_record says what the code computes for all inputs. *)
+From Verif Require Import Lib.Base Model.C09_Auction Model.C09_Spec Proofs.C09 Proofs.C09_Spec Check.C09 Proofs.C09_Check.
+
+(* ------------------------------------------------------------------------------------------- *)
+(* Score and eligibility. *)
+
+(* score = (value + offset) * factor / 100 with the builder's configuration (absent parts left out) *)
+Theorem C09_score_formula :
+  forall cfgs b,
+    score cfgs b =
+    let c := conf_of cfgs b in
+    let base := (Z.of_N (b_value b) + match bc_offset c with Some o => o | None => 0 end)%Z in
+    match bc_factor c with Some f => (base * f / 100)%Z | None => base end.
+Proof. exact score_formula. Qed.
+Print Assumptions C09_score_formula.
+
+(* the division rounds down *)
+Theorem C09_score_floor :
+  forall cfgs b f,
+    bc_factor (conf_of cfgs b) = Some f ->
+    let base := (Z.of_N (b_value b) + match bc_offset (conf_of cfgs b) with Some o => o | None => 0 end)%Z in
+    (100 * score cfgs b <= base * f < 100 * score cfgs b + 100)%Z.
+Proof. exact score_floor. Qed.
+Print Assumptions C09_score_floor.
+
+(* an excluded builder (factor 0) always scores zero; an unconfigured builder scores its value *)
+Theorem C09_excluded_builder_scores_zero :
+  forall cfgs b, bc_factor (conf_of cfgs b) = Some 0%Z -> score cfgs b = 0%Z.
+Proof. exact score_excluded. Qed.
+Print Assumptions C09_excluded_builder_scores_zero.
+
+Theorem C09_unconfigured_builder_scores_value :
+  forall cfgs b, lookup (b_builder b) cfgs = None ->
+                 score cfgs b = Z.of_N (b_value b) /\ cat_of cfgs b = std_cat.
+Proof. exact score_unconfigured. Qed.
+Print Assumptions C09_unconfigured_builder_scores_value.
+
+Theorem C09_eligible_spelled_out :
+  forall r b,
+    eligible r b = true <->
+    b_value b <> 0 /\ r_min r <= b_value b /\ b_zero_recipient b = false /\ b_ts_delta b = 0%Z
+    /\ (forall k, eff_key r = Some k -> b_signer b = k).
+Proof. exact eligible_iff. Qed.
+Print Assumptions C09_eligible_spelled_out.
+
+(* ------------------------------------------------------------------------------------------- *)
+(* The collector (setBuilderBid folded over any list of forwarded bids). *)
 
 Theorem C09_collect_inv : forall cfgs fw, inv cfgs fw (collect cfgs fw).
 Proof. exact collect_inv. Qed.
 Print Assumptions C09_collect_inv.
+
+(* strictly greater replaces: the winner is the FIRST bid of maximal non-zero score *)
+Theorem C09_first_best_wins :
+  forall cfgs fw w,
+    st_win (collect cfgs fw) = Some w ->
+    exists r0 l1 l2, fw = l1 ++ (r0, p_bid w) :: l2
+      /\ (forall rb, In rb l1 -> score cfgs (snd rb) = 0%Z \/ (score cfgs (snd rb) < p_score w)%Z)
+      /\ (forall rb, In rb l2 -> score cfgs (snd rb) = 0%Z \/ (score cfgs (snd rb) <= p_score w)%Z).
+Proof. exact first_best_wins. Qed.
+Print Assumptions C09_first_best_wins.
+
+(* Results.Participation: per relay the last bid handed to the collector, with its own score *)
+Theorem C09_participation_is_last_forwarded :
+  forall cfgs fw i,
+    match lookup i (st_parts (collect cfgs fw)) with
+    | Some p => p_score p = score cfgs (p_bid p) /\ p_cat p = cat_of cfgs (p_bid p)
+                /\ exists l1 l2, fw = l1 ++ (i, p_bid p) :: l2 /\ forall b, ~ In (i, b) l2
+    | None => forall b, ~ In (i, b) fw
+    end.
+Proof. exact participation_last. Qed.
+Print Assumptions C09_participation_is_last_forwarded.
+
+(* ------------------------------------------------------------------------------------------- *)
+(* The winner is the best-scoring acceptable bid. *)
+
+(* best (single shot): all relay sets, scripts, builder configurations, timeouts, arrival orders *)
+Theorem C09_winner_is_max_eligible :
+  forall cfgs T rs ord,
+    arrival_order (Best T) rs ord ->
+    winner_is_max cfgs (acceptable (Best T) rs) (st_win (result_of cfgs (Best T) ord)).
+Proof. exact best_winner_is_max. Qed.
+Print Assumptions C09_winner_is_max_eligible.
+
+(* Full statement for the deadline strategy (refuted below):
+     forall cfgs D gap rs ord, arrival_order (Deadline D gap) rs ord ->
+       winner_is_max cfgs (acceptable (Deadline D gap) rs) (st_win (result_of cfgs (Deadline D gap) ord)).
+   Proved: the same under [no_suppressed_better], i.e. outside the known-finding class
+   "a relay's later on-time eligible bid has a value not above, but a score above, the bid the
+   relay forwarded before (or that one scores zero)". *)
+Theorem C09_winner_is_max_eligible_deadline_partial :
+  forall cfgs D gap rs ord,
+    arrival_order (Deadline D gap) rs ord ->
+    no_suppressed_better cfgs (Deadline D gap) rs ->
+    winner_is_max cfgs (acceptable (Deadline D gap) rs) (st_win (result_of cfgs (Deadline D gap) ord)).
+Proof. exact deadline_winner_is_max_partial. Qed.
+Print Assumptions C09_winner_is_max_eligible_deadline_partial.
+
+(* the full statement is false of the deadline strategy *)
+Theorem C09_deadline_refuted :
+  exists cfgs D gap rs,
+    ~ winner_is_max cfgs (acceptable (Deadline D gap) rs) (st_win (strategy_result cfgs (Deadline D gap) rs)).
+Proof. exact deadline_refuted. Qed.
+Print Assumptions C09_deadline_refuted.
+
+(* ... a winner although an on-time eligible bid scores strictly higher
+   (corpus/C09/deadline-suppressed-better-bid.json) *)
+Theorem C09_deadline_refuted_lower_winner :
+  exists cfgs D gap rs w j b,
+    st_win (strategy_result cfgs (Deadline D gap) rs) = Some w
+    /\ acceptable (Deadline D gap) rs j b /\ (p_score w < score cfgs b)%Z.
+Proof. exact deadline_refuted_lower_winner. Qed.
+Print Assumptions C09_deadline_refuted_lower_winner.
+
+(* ... no winner (local payload) although an on-time eligible bid with a non-zero score exists
+   (corpus/C09/deadline-excluded-then-lower.json) *)
+Theorem C09_deadline_refuted_no_winner :
+  exists cfgs D gap rs j b,
+    st_win (strategy_result cfgs (Deadline D gap) rs) = None
+    /\ acceptable (Deadline D gap) rs j b /\ score cfgs b <> 0%Z.
+Proof. exact deadline_refuted_no_winner. Qed.
+Print Assumptions C09_deadline_refuted_no_winner.
+
+(* what the deadline strategy computes on ALL inputs: the best score among the relays' value
+   records (eligible bids whose value exceeds every earlier eligible bid of the same relay) *)
+Theorem C09_deadline_winner_is_max_value_record :
+  forall cfgs D gap rs ord,
+    arrival_order (Deadline D gap) rs ord ->
+    winner_is_max cfgs (record_offer (Deadline D gap) rs) (st_win (result_of cfgs (Deadline D gap) ord)).
+Proof. exact deadline_winner_is_max_record. Qed.
+Print Assumptions C09_deadline_winner_is_max_value_record.
+
+(* without per-builder configuration the deadline strategy satisfies the full statement *)
+Theorem C09_winner_is_max_eligible_deadline_unconfigured :
+  forall D gap rs ord,
+    arrival_order (Deadline D gap) rs ord ->
+    winner_is_max [] (acceptable (Deadline D gap) rs) (st_win (result_of [] (Deadline D gap) ord)).
+Proof.
+  intros D gap rs ord Hord. apply deadline_winner_is_max_partial; [exact Hord|].
+  intros r _ _. apply no_suppressed_nil_cfgs.
+Qed.
+Print Assumptions C09_winner_is_max_eligible_deadline_unconfigured.
+
+(* the winning score does not depend on the order in which the answers arrive (either strategy) *)
+Theorem C09_winning_score_order_independent :
+  forall cfgs s rs o1 o2,
+    arrival_order s rs o1 -> arrival_order s rs o2 ->
+    option_map p_score (st_win (result_of cfgs s o1)) = option_map p_score (st_win (result_of cfgs s o2)).
+Proof. exact winning_score_order_independent. Qed.
+Print Assumptions C09_winning_score_order_independent.
+
+(* ------------------------------------------------------------------------------------------- *)
+(* Ineligible, late and excluded bids never win (either strategy, every arrival order): the
+   winning bid was answered, before the cut-off, by a configured relay the strategy asks (so not by
+   one that cannot unblind under `best`, is no bid provider or has no usable address); there it has
+   a non-zero value at least the relay's minimum, a non-zero fee recipient, the slot's timestamp
+   and, when the relay's key is known, that key's signature; its score is not zero and its builder
+   is not excluded; and that relay is listed for unblinding. *)
+Theorem C09_ineligible_late_excluded_never_win :
+  forall cfgs s rs ord w,
+    arrival_order s rs ord -> st_win (result_of cfgs s ord) = Some w ->
+    exists r t k,
+      In r rs /\ queried s r = true
+      /\ In (t, k, RBid (p_bid w)) (answered s r) /\ (t < cutoff s)%Z
+      /\ (b_value (p_bid w) <> 0 /\ r_min r <= b_value (p_bid w) /\ b_zero_recipient (p_bid w) = false
+          /\ b_ts_delta (p_bid w) = 0%Z /\ (forall key, eff_key r = Some key -> b_signer (p_bid w) = key))
+      /\ score cfgs (p_bid w) <> 0%Z
+      /\ bc_factor (conf_of cfgs (p_bid w)) <> Some 0%Z
+      /\ In (r_idx r) (st_providers (result_of cfgs s ord)).
+Proof. exact winner_is_acceptable. Qed.
+Print Assumptions C09_ineligible_late_excluded_never_win.
+
+(* whatever reaches the collector at all is an acceptable offer *)
+Theorem C09_only_acceptable_bids_considered :
+  forall s rs ord i b,
+    arrival_order s rs ord -> In (i, b) (forwarded (cutoff s) ord) -> exists t, acceptable_at s rs i t b.
+Proof. exact forwarded_acceptable. Qed.
+Print Assumptions C09_only_acceptable_bids_considered.
+
+(* ------------------------------------------------------------------------------------------- *)
+(* Providers. *)
+
+(* every relay listed for unblinding offered, acceptably, a bid with the winning header *)
+Theorem C09_providers_offered_winning_payload :
+  forall cfgs s rs ord w i,
+    arrival_order s rs ord ->
+    st_win (result_of cfgs s ord) = Some w -> In i (st_providers (result_of cfgs s ord)) ->
+    exists t b, acceptable_at s rs i t b /\ b_header b = b_header (p_bid w).
+Proof. exact providers_offered. Qed.
+Print Assumptions C09_providers_offered_winning_payload.
+
+(* the relay that offered the winning bid itself heads the list *)
+Theorem C09_winner_relay_listed :
+  forall cfgs s rs ord w,
+    arrival_order s rs ord -> st_win (result_of cfgs s ord) = Some w ->
+    exists r0 rest t, st_providers (result_of cfgs s ord) = r0 :: rest /\ acceptable_at s rs r0 t (p_bid w).
+Proof. exact winner_relay_first. Qed.
+Print Assumptions C09_winner_relay_listed.
+
+(* Providers is a subset of AllProviders *)
+Theorem C09_providers_among_all_providers :
+  forall cfgs s rs ord i,
+    arrival_order s rs ord -> In i (st_providers (result_of cfgs s ord)) -> In i (all_providers s rs).
+Proof. exact providers_in_all_providers. Qed.
+Print Assumptions C09_providers_among_all_providers.
+
+(* ------------------------------------------------------------------------------------------- *)
+(* No acceptable bid, no winner; and what the beacon node is served. *)
+
+Theorem C09_none_eligible_no_winner :
+  forall cfgs s rs ord,
+    arrival_order s rs ord ->
+    (forall i b, acceptable s rs i b -> score cfgs b = 0%Z) ->
+    st_win (result_of cfgs s ord) = None /\ st_providers (result_of cfgs s ord) = []
+    /\ forall m x, In x (served m rs (result_of cfgs s ord)) -> x = None.
+Proof. exact none_acceptable_no_winner. Qed.
+Print Assumptions C09_none_eligible_no_winner.
+
+(* no relay configured: the strategy is not run, there is no winner and no bid is served *)
+Theorem C09_no_relays_no_winner :
+  forall cfgs s m x,
+    st_win (auction_state cfgs s []) = None /\ (In x (served m [] (auction_state cfgs s [])) -> x = None).
+Proof. exact no_relays_no_winner. Qed.
+Print Assumptions C09_no_relays_no_winner.
+
+(* cacheBid stores the winning bid or the zero-value dummy, and every BuilderBid answer is the
+   winner's bid, or "no bid" (local payload) when there is no winner *)
+Theorem C09_builderbid_serves_winner_or_no_bid :
+  forall cfgs s rs ord m x,
+    arrival_order s rs ord ->
+    (rs <> [] -> auction_cache rs (result_of cfgs s ord) =
+                 match st_win (result_of cfgs s ord) with Some w => CBid (p_bid w) | None => CDummy end)
+    /\ (In x (served m rs (result_of cfgs s ord)) ->
+        x = option_map (fun w => b_uid (p_bid w)) (st_win (result_of cfgs s ord))).
+Proof.
+  intros cfgs s rs ord m x Hord. split.
+  - intros Hne. apply cache_entry. exact Hne.
+  - apply served_is_winner. intros w Hw. apply (result_winner_value_nonzero cfgs s rs ord w Hord Hw).
+Qed.
+Print Assumptions C09_builderbid_serves_winner_or_no_bid.
+
+(* ------------------------------------------------------------------------------------------- *)
+(* The orders used by the model and by the check are arrival orders, so all of the above speaks
+   about [strategy_result] and about every candidate order of [Check.C09.agree]. *)
+
+Theorem C09_time_order_is_arrival_order :
+  forall s rs, arrival_order s rs (by_time (all_events s rs)).
+Proof. exact by_time_arrival_order. Qed.
+Print Assumptions C09_time_order_is_arrival_order.
+
+Theorem C09_linearizations_are_arrival_orders :
+  forall s rs ord, In ord (linearizations (all_events s rs)) -> arrival_order s rs ord.
+Proof. exact linearization_arrival_order. Qed.
+Print Assumptions C09_linearizations_are_arrival_orders.
+
+(* the same for the results the model computes (time-sorted arrival) *)
+Theorem C09_strategy_result_winner_is_max :
+  forall cfgs T rs,
+    winner_is_max cfgs (acceptable (Best T) rs) (st_win (strategy_result cfgs (Best T) rs))
+    /\ forall D gap, no_suppressed_better cfgs (Deadline D gap) rs ->
+         winner_is_max cfgs (acceptable (Deadline D gap) rs) (st_win (strategy_result cfgs (Deadline D gap) rs)).
+Proof.
+  intros cfgs T rs. split.
+  - apply best_winner_is_max, by_time_arrival_order.
+  - intros D gap. apply deadline_winner_is_max_partial, by_time_arrival_order.
+Qed.
+Print Assumptions C09_strategy_result_winner_is_max.
+
+(* errors, silences, ineligible and late answers are immaterial: two relay lists with the same
+   acceptable offers give the same winning score, whatever else their relays do *)
+Theorem C09_result_depends_only_on_acceptable_offers :
+  forall cfgs T rs rs' ord ord',
+    arrival_order (Best T) rs ord -> arrival_order (Best T) rs' ord' ->
+    (forall i b, acceptable (Best T) rs i b <-> acceptable (Best T) rs' i b) ->
+    option_map p_score (st_win (result_of cfgs (Best T) ord)) = option_map p_score (st_win (result_of cfgs (Best T) ord')).
+Proof. exact best_score_depends_on_acceptable. Qed.
+Print Assumptions C09_result_depends_only_on_acceptable_offers.
+
+(* the call returns by the cut-off (hard timeout / deadline), whatever the relays do *)
+Theorem C09_returns_by_cutoff :
+  forall s rs, (0 <= cutoff s)%Z -> (0 <= elapsed s rs <= cutoff s)%Z.
+Proof. exact elapsed_bounds. Qed.
+Print Assumptions C09_returns_by_cutoff.
+
+(* ------------------------------------------------------------------------------------------- *)
+(* The check's predicate.  [Check.C09.P_b] is evaluated on the OBSERVED result of every case; its
+   candidates are computed from the mock's call log and the relay scripts, not by the model.  When
+   that log is the scripted one ([log_agrees], which [agree] checks) and relay names are distinct,
+   the candidates are exactly the acceptable offers, and P_b = true means that the observed winner,
+   provider list and served bids satisfy the declarative statement. *)
+
+Theorem C09_check_candidates_are_acceptable :
+  forall c, NoDup (map r_idx (c_relays c)) -> log_agrees c ->
+            forall i b, In (i, b) (cands c) <-> acceptable (c_strat c) (c_relays c) i b.
+Proof. exact cands_iff_acceptable. Qed.
+Print Assumptions C09_check_candidates_are_acceptable.
+
+Theorem C09_agree_gives_log : forall c, agree c = true -> strategy_runs c = true -> log_agrees c.
+Proof. exact agree_log. Qed.
+Print Assumptions C09_agree_gives_log.
+
+Theorem C09_P_b_sound :
+  forall c,
+    NoDup (map r_idx (c_relays c)) -> log_agrees c -> P_b c = true ->
+    let P := acceptable (c_strat c) (c_relays c) in
+    c_panic c = false
+    /\ (c_has_results c = true ->
+        obs_winner_is_max (c_cfgs c) P (c_win c) /\ obs_providers_ok P (c_win c) (c_providers c)
+        /\ (forall j, In j (c_providers c) -> In j (c_allp c)))
+    /\ (c_mode c <> MStrategy -> Forall (obs_served_ok (c_cfgs c) P) (c_served c)).
+Proof. exact P_b_sound. Qed.
+Print Assumptions C09_P_b_sound.
+
+(* ------------------------------------------------------------------------------------------- *)
+(* Non-vacuity. *)
+
+(* two relays, the second offers more but late; a third offers most but with a bad timestamp; the
+   winner is the first relay's bid and both strategies' hypotheses are met by a non-trivial run *)
+Definition ex_relay (i : N) (lat : Z) (b : bid) : relay :=
+  {| r_idx := i; r_kind := KFull; r_min := 5; r_cfg_key := Some 1; r_adv_key := None; r_grace := 0%Z;
+     r_script := [(lat, RBid b)] |}.
+Definition ex_rs : list relay :=
+  [ ex_relay 0 10%Z (wit_bid 1 10 1 3);
+    ex_relay 1 700%Z (wit_bid 2 50 1 4);
+    ex_relay 2 20%Z {| b_uid := 3; b_value := 90; b_builder := 1; b_zero_recipient := false;
+                       b_ts_delta := 12%Z; b_signer := 1; b_header := 5 |};
+    ex_relay 3 30%Z (wit_bid 4 7 2 3) ].
+
+Example C09_ex_best_winner :
+  option_map (fun w => (p_score w, b_uid (p_bid w))) (st_win (strategy_result wit_cfgs_prefer (Best 500) ex_rs))
+  = Some (14%Z, 4)
+  /\ st_providers (strategy_result wit_cfgs_prefer (Best 500) ex_rs) = [3]
+  /\ st_providers (strategy_result [] (Best 500) ex_rs) = [0; 3].
+Proof. vm_compute. repeat split. Qed.
+
+Example C09_ex_acceptable : acceptable (Best 500) ex_rs 0 (wit_bid 1 10 1 3).
+Proof.
+  exists 10%Z, (ex_relay 0 10%Z (wit_bid 1 10 1 3)), 0. repeat split.
+  - left. reflexivity.
+  - left. reflexivity.
+Qed.
+
+(* the deadline hypothesis holds on runs with several forwarded and kept-back bids ... *)
+Example C09_ex_no_suppressed :
+  let r := {| r_idx := 0; r_kind := KFull; r_min := 0; r_cfg_key := None; r_adv_key := None; r_grace := 0%Z;
+              r_script := [(16%Z, RBid (wit_bid 1 10 1 3)); (16%Z, RBid (wit_bid 2 9 1 6));
+                           (16%Z, RBid (wit_bid 3 12 2 7))] |} in
+  no_suppressed_better wit_cfgs_prefer (Deadline 200 16) [r]
+  /\ length (answered (Deadline 200 16) r) = 3%nat
+  /\ option_map (fun w => (p_score w, b_uid (p_bid w))) (st_win (strategy_result wit_cfgs_prefer (Deadline 200 16) [r]))
+     = Some (24%Z, 3).
+Proof.
+  cbn zeta. split; [|vm_compute; split; reflexivity].
+  intros r [<- | []] _. vm_compute. reflexivity.
+Qed.
+
+(* ... and fails on the known-finding witnesses *)
+Example C09_ex_witness_in_excluded_class :
+  no_suppressed wit_cfgs_prefer wit_relay None (answered (Deadline 100 16) wit_relay) = false
+  /\ no_suppressed wit_cfgs_exclude wit_relay None (answered (Deadline 100 16) wit_relay) = false.
+Proof. exact wit_suppressed. Qed.
+
+(* no acceptable bid: no winner, the beacon node is told "no bid" *)
+Example C09_ex_no_winner :
+  let rs := [ ex_relay 0 10%Z (wit_bid 1 4 1 3) ] in
+  st_win (strategy_result [] (Best 500) rs) = None
+  /\ served MAuction rs (strategy_result [] (Best 500) rs) = [None].
+Proof. vm_compute. split; reflexivity. Qed.
